@@ -405,14 +405,19 @@ fn vrun_program_inner(src: &str, only: Option<(&str, &[Vec<VV>])>, nvec: usize, 
         for (flav, m) in [("dx", &ast_dx), ("vk", &ast_vk)] {
             if let Ok(Ok(m)) = m {
                 let tc = TConv::new(m);
-                let want = super::protos::precise_of_ir(&p.ir, ir::FunctionId(*fid));
-                let got = tc.find_function(&m.root_definitions, "", emitted).map(super::protos::precise_of_ast).unwrap_or_default();
-                let (wm, gm) = (super::protos::precise_members_of_ir(&p.ir), super::protos::precise_members_of_ast(m));
-                if flav == "dx" && !(want.is_empty() && wm.is_empty()) {
-                    hist.add("v:fn:with-precise");
+                // every function of the module, not only the one under test (its callees' parameters are declared elsewhere)
+                let mut any = false;
+                for (gid, _, gname) in p.funcs.iter() {
+                    let want = super::protos::precise_of_ir(&p.ir, ir::FunctionId(*gid));
+                    let got = tc.find_function(&m.root_definitions, "", gname).map(super::protos::precise_of_ast).unwrap_or_default();
+                    any |= !want.is_empty();
+                    if got != want && fails.is_empty() {
+                        fails.push(format!("{}: precise declarations of {} differ: IR [{}] exported [{}]", flav, gname, want.join(" "), got.join(" ")));
+                    }
                 }
-                if got != want && fails.is_empty() {
-                    fails.push(format!("{}: precise declarations of {} differ: IR [{}] exported [{}]", flav, emitted, want.join(" "), got.join(" ")));
+                let (wm, gm) = (super::protos::precise_members_of_ir(&p.ir), super::protos::precise_members_of_ast(m));
+                if flav == "dx" && (any || !wm.is_empty()) {
+                    hist.add("v:fn:with-precise");
                 }
                 if gm != wm && fails.is_empty() {
                     fails.push(format!("{}: precise struct members differ: IR [{}] exported [{}]", flav, wm.join(" "), gm.join(" ")));
